@@ -1,4 +1,4 @@
-\* c4none2
+\* thorough: no mandatory session, ECUReset optional
 SPECIFICATION Spec
 CONSTANTS
   Cand <- Cand4
